@@ -256,6 +256,12 @@ func (e *Emitter) emitScriptStatement(scriptStmt *ast.ScriptStatement, textLabel
 			if !ok {
 				return "", errors.New("could not emit 'break' statement because its return point is unknown")
 			}
+			if !curChunk.isLastStatement(i) {
+				// Statements after the break can't be reached by falling through, but they
+				// can contain labels that are jumped to. Keep them in their own chunk.
+				chunkCounter++
+				remainingChunks = append(remainingChunks, curChunk.createPostLogicChunk(chunkCounter, i))
+			}
 			completeChunk := &chunk{
 				id:             curChunk.id,
 				returnID:       curChunk.returnID,
